@@ -92,7 +92,7 @@ ENGINES["sys"] = dict(
 def serve_owner(line, pid, msg):
     # `svstart` lines are about start-up and the empty chain (C13; nothing answering is also C01's business); the bursts are not C13's
     if line.startswith("svbig"):
-        return pid in ("C01", "C14", "C17", "C16")
+        return pid in ("C14", "C17") or (pid in ("C01", "C16") and "=> wrong" not in line)
     return (pid in ("C13", "C01")) if line.startswith("svstart") else pid not in ("C13", "C14", "C17")
 
 
